@@ -14,15 +14,23 @@ Lemma cond_true_holds : forall c a b, cond_true c a b = holds c a b.
 Proof. intros c a b. destruct c; cbn [cond_true holds]; try reflexivity. rewrite Z.geb_leb. reflexivity. Qed.
 
 Lemma loop_count_spec : forall a b st n,
-  loop_count a b st = Some n -> 0 < st /\ b = a + st * Z.of_nat n.
+  loop_count a b st = Some n -> st <> 0 /\ b = a + st * Z.of_nat n.
 Proof.
   intros a b st n H. unfold loop_count in H.
-  destruct (st <=? 0) eqn:E1; [discriminate|].
-  destruct (b <? a) eqn:E2; [discriminate|].
-  destruct ((b - a) mod st =? 0) eqn:E3; cbn [negb] in H; [|discriminate].
-  inversion H; subst. apply Z.leb_gt in E1. apply Z.ltb_ge in E2. apply Z.eqb_eq in E3.
-  split; [lia|]. rewrite Z2Nat.id by (apply Z.div_pos; lia).
-  assert (Hd := Z.div_mod (b - a) st ltac:(lia)). lia.
+  destruct (st =? 0) eqn:E0; [discriminate|]. apply Z.eqb_neq in E0.
+  destruct (0 <? st) eqn:Ep.
+  - apply Z.ltb_lt in Ep.
+    destruct (b <? a) eqn:E2; [discriminate|].
+    destruct ((b - a) mod st =? 0) eqn:E3; cbn [negb] in H; [|discriminate].
+    inversion H; subst. apply Z.ltb_ge in E2. apply Z.eqb_eq in E3.
+    split; [lia|]. rewrite Z2Nat.id by (apply Z.div_pos; lia).
+    assert (Hd := Z.div_mod (b - a) st ltac:(lia)). lia.
+  - apply Z.ltb_ge in Ep.
+    destruct (a <? b) eqn:E2; [discriminate|].
+    destruct ((a - b) mod (- st) =? 0) eqn:E3; cbn [negb] in H; [|discriminate].
+    inversion H; subst. apply Z.ltb_ge in E2. apply Z.eqb_eq in E3.
+    split; [lia|]. rewrite Z2Nat.id by (apply Z.div_pos; lia).
+    assert (Hd := Z.div_mod (a - b) (- st) ltac:(lia)). nia.
 Qed.
 
 Section Constructs.
@@ -67,7 +75,7 @@ Section Constructs.
       exists s1, sx body s s1 /\ R e1 s1 /\ m_reg s1 r = Some i.
 
     Lemma loop_rounds : forall n st i e s e' b,
-      0 < st -> b = i + st * Z.of_nat n ->
+      st <> 0 -> b = i + st * Z.of_nat n ->
       R e s -> m_reg s r = Some i -> iter_loop f n i st e = Some e' ->
       exists s', sxloop r b st body s s' /\ R e' s' /\ m_reg s' r = Some b.
     Proof.
@@ -82,7 +90,9 @@ Section Constructs.
           assert (E : reg_eqb r r = true) by (destruct r as [bk k]; cbn; destruct bk; cbn; rewrite Nat.eqb_refl; reflexivity).
           rewrite E. reflexivity.
         + exists s'. repeat split; auto.
-          eapply sxl_step with (v := i) (v1 := i); eauto. lia.
+          eapply sxl_step with (v := i) (v1 := i); eauto.
+          intro E. assert (st * Z.of_nat (S n) = 0) by lia.
+          apply Z.mul_eq_0 in H. lia.
     Qed.
 
     (* lower_loop: the body runs for r = a, a+st, ... while r <> b, exactly the rounds of the
@@ -105,7 +115,7 @@ Section Constructs.
       exists s', sx1 (XLoop r 0 (Z.of_nat len) 1 body) s s' /\ R e' s'.
     Proof.
       intros len e s e' HR Hit. eapply lower_loop; eauto.
-      unfold loop_count. cbn.
+      unfold loop_count. cbn [Z.eqb Z.ltb Z.compare].
       destruct (Z.of_nat len <? 0) eqn:E; [apply Z.ltb_lt in E; lia|].
       rewrite Z.sub_0_r, Z.mod_1_r, Z.div_1_r, Nat2Z.id. reflexivity.
     Qed.
